@@ -86,8 +86,11 @@ func perturb(colls map[string]system.Collection) map[string]system.Collection {
 		case len(c) == 1:
 			switch v := c[0].(type) {
 			case system.Integer:
-				// the other side of zero, so that comparisons against small numbers flip
-				if v > 0 {
+				// the other side of zero, so that comparisons against small numbers flip; 7 becomes the Decimal 2.5 (a
+				// compiled `%seven < 2` then meets another TYPE on its left, not only another value)
+				if v == 7 {
+					out[n] = system.Collection{system.MustParseDecimal("2.5")}
+				} else if v > 0 {
 					out[n] = system.Collection{system.Integer(-int32(v)/2 - 1)}
 				} else {
 					out[n] = system.Collection{system.Integer(-(int32(v) / 2) + 11)}
@@ -195,11 +198,12 @@ func main() {
 			opts2 = append(opts2, evalopts.EnvVariable(n, other[n]))
 		}
 		snap := lib.TakeSnapshot([]proto.Message{mr1, mr4, mr2}, colls)
-		out, outB, reeval, cross := lib.EvalCross(forest, g.Text, lib.AsResources(mr1, mr2), func() []fhirpath.EvaluateOption { return opts },
+		out, outB, reeval, cross, kept := lib.EvalCross(forest, g.Text, lib.AsResources(mr1, mr2), func() []fhirpath.EvaluateOption { return opts },
 			lib.AsResources(mr4), func() []fhirpath.EvaluateOption { return opts2 })
 		mut := snap.Report()
 		mut["reeval_differs"] = reeval
 		mut["crosseval_differs"] = cross
+		mut["kept_result_changed"] = kept
 		if err := w.Write(map[string]any{"id": g.ID, "ast": g.Ast, "src": g.Text, "out": out, "outB": outB, "kind": "prog", "mut": mut,
 			"parent": g.Parent, "prop": g.Prop, "depth": g.Depth, "lane": g.Lane}); err != nil {
 			lib.Fatal("%v", err)
